@@ -147,12 +147,12 @@ func plans(id, tier string) (Plan, bool) {
 		}}, true
 	case "C14":
 		var jobs []Job
-		for sc := 0; sc < pick(5, 7); sc++ {
+		for _, sc := range map[bool][]int{false: {0, 1, 2, 3, 4, 7, 8, 9}, true: {0, 1, 2, 3, 4, 5, 6, 7, 8, 9}}[th] {
 			jobs = append(jobs, Job{Pkg: pkgSC, Harness: "c14_sched", Instr: "v1", Params: fmt.Sprintf("scenario=%d;policy=delay;budget=%d", sc, pick(3, 5)), Shards: pick(2, 8)})
 		}
 		jobs = append(jobs, Job{Pkg: pkgSC, Harness: "c14_sched", Instr: "v1", Params: "scenario=0;precomputed=yes;policy=delay;budget=" + fmt.Sprint(pick(3, 5)), Shards: pick(2, 8)})
 		if th {
-			for sc := 0; sc < 5; sc++ {
+			for _, sc := range []int{0, 1, 2, 3, 4, 7, 9} {
 				jobs = append(jobs, Job{Pkg: pkgSC, Harness: "c14_sched", Instr: "v1", Params: fmt.Sprintf("scenario=%d;policy=preemption;budget=1;split=10", sc), Shards: 16})
 			}
 			jobs = append(jobs, Job{Pkg: pkgSC, Harness: "c14_sched", Instr: "v1", Params: "scenario=0;policy=delay;budget=2;accessyields=yes", Shards: 8})
